@@ -348,3 +348,21 @@ where
     }
     result
 }
+
+/// Verification hook: crate-external access to `central_moment_coefficients` and `horner_method`.
+#[cfg(rust_ndarray_ndarray_stats_verif)]
+pub fn verif_central_moment_coefficients<A>(moments: &[A]) -> Vec<A>
+where
+    A: Float + FromPrimitive,
+{
+    central_moment_coefficients(moments)
+}
+
+/// Verification hook: crate-external access to `horner_method`.
+#[cfg(rust_ndarray_ndarray_stats_verif)]
+pub fn verif_horner_method<A>(coefficients: Vec<A>, indeterminate: A) -> A
+where
+    A: Float,
+{
+    horner_method(coefficients, indeterminate)
+}
